@@ -129,6 +129,7 @@ fn simpler_ops(op: &Op) -> Vec<Op> {
             }
         }
         Op::Quiesce => v.push(Op::Drive { max: 8 }),
+        Op::FreezeFresh => v.push(Op::Freeze),
         _ => {}
     }
     v
